@@ -163,6 +163,12 @@ def check_instance(ck, inst, std, counters, conds):
         ck.note('%s: roles discovered %s' % (unit, roles.how))
         counters['structural'] += 1
     names = roles.names()
+    # three independent sources must agree on sizeof (V): debug info, the front end's
+    # dereferenceable(n), and (checked inside norm) the own layout of the IR struct type
+    nf0 = m.normal_form('svn_m_size')
+    if nf0.params and nf0.params[0][2] is not None and nf0.params[0][2] != rec.size:
+        raise common.AnalysisBroken('C02 observers: sizeof (%s) is %d in debug info but the reference parameter is '
+                                    'dereferenceable(%d)' % (inst.V, rec.size, nf0.params[0][2]))
     S = const_of(m, failed, 'svn_k_sizeof_T')
     f = m.function('svn_m_index') if 'svn_m_index' not in failed and 'svn_m_index' in m.functions else None
     idx_bits = 8 * roles.size[1]
@@ -288,7 +294,7 @@ def collect(ck, tier):
         a = 'E4 side condition: ' + c
         if a not in ck.assumptions:
             ck.assumptions.append(a)
-    for a in ('LLVM 14 -O2 as the normaliser of loop-free observers (E4)',
+    for a in ('LLVM 14 -O2 as the normaliser of loop-free observers (E4)', norm.TOOLCHAIN_NOTE,
               'x86-64 Itanium ABI layout as reported by clang 14 debug info and -fdump-record-layouts'):
         if a not in ck.assumptions:
             ck.assumptions.append(a)
